@@ -8,11 +8,13 @@
 
 mod common;
 mod ftrl;
+mod harden;
 mod km;
 mod nb;
 
 use common::Out;
 use ftrl::FtrlCase;
+use harden::HCase;
 use km::KmCase;
 use lvmc_core::enumerate as en;
 use lvmc_core::{json, par_sweep, Ctx, Level, Value, Violation};
@@ -31,6 +33,8 @@ enum Case {
     Km(KmCase),
     #[serde(rename = "ftrl")]
     Ftrl(FtrlCase),
+    #[serde(rename = "harden")]
+    Harden(HCase),
 }
 
 fn run_case(c: &Case, out: &mut Out) {
@@ -38,6 +42,7 @@ fn run_case(c: &Case, out: &mut Out) {
         Case::Nb(c) => nb::run_nb(c, out),
         Case::Km(c) => km::run_km(c, out),
         Case::Ftrl(c) => ftrl::run_ftrl(c, out),
+        Case::Harden(c) => harden::run_h(c, out),
     }
 }
 
@@ -244,7 +249,7 @@ fn km_cases(max_len: usize) -> Vec<KmCase> {
     let small = vec![vec![2.0, 2.5], vec![7.0, 7.0], vec![0.5, 0.25]];
     let init2 = vec![vec![0.5, 0.25], vec![5.0, 4.0]];
     for metric in ["L2", "L1"] {
-        for n in [1024usize, 1025, 2500] {
+        for n in [1024usize, 1025, 2500, 4097] {
             for layout in ["cyclic", "blocks"] {
                 for k in 1..=2usize {
                     for (init, seed, n_runs) in [("precomputed", 0u64, 1usize), ("kmeans++", 42, 1), ("random", 7, 3)] {
@@ -267,6 +272,185 @@ fn km_cases(max_len: usize) -> Vec<KmCase> {
             }
         }
     }
+    out
+}
+
+/// every assignment of the five layouts to the batches of a history of length l
+fn layout_assignments(l: usize) -> Vec<Vec<usize>> {
+    en::sequences(l, 5)
+}
+
+fn harden_cases(thorough: bool) -> Vec<HCase> {
+    let mut out = Vec::new();
+    let floats = ["f64", "f32"];
+    // ---------------- naive Bayes ----------------
+    let d1x: Vec<Vec<f64>> = vec![vec![0.0, 1.0], vec![1.0, 3.0], vec![2.0, 0.0], vec![3.0, 2.0], vec![1.0, 1.0], vec![0.0, 3.0], vec![2.0, 2.0], vec![3.0, 0.0]];
+    let d1y: Vec<usize> = vec![0, 1, 2, 0, 1, 2, 0, 1];
+    let d2x: Vec<Vec<f64>> = vec![vec![0.0], vec![2.0], vec![1.0], vec![3.0], vec![3.0], vec![0.0], vec![1.0]];
+    let d2y: Vec<usize> = vec![0, 0, 1, 1, 0, 1, 0];
+    let q2: Vec<Vec<f64>> = vec![vec![0.0, 0.0], vec![1.0, 2.0], vec![3.0, 3.0], vec![2.0, 1.0], vec![0.0, 3.0], vec![3.0, 1.0]];
+    let q1: Vec<Vec<f64>> = vec![vec![0.0], vec![1.0], vec![2.0], vec![3.0]];
+    let split = |x: &Vec<Vec<f64>>, y: &Vec<usize>, comp: &[usize]| -> (Vec<Vec<Vec<f64>>>, Vec<Vec<usize>>) {
+        let mut bx = Vec::new();
+        let mut by = Vec::new();
+        let mut j = 0;
+        for &s in comp {
+            bx.push(x[j..j + s].to_vec());
+            by.push(y[j..j + s].to_vec());
+            j += s;
+        }
+        (bx, by)
+    };
+    let nb_models: Vec<(&str, f64, bool)> = vec![("gaussian", 0.0, true), ("gaussian", 1e-9, false), ("gaussian", 1e-3, true), ("multinomial", 0.5, true), ("multinomial", 1.0, false)];
+    for (x, y, q, comps) in [
+        (&d1x, &d1y, &q2, vec![vec![8usize], vec![3, 5], vec![1, 2, 5], vec![4, 1, 3]]),
+        (&d2x, &d2y, &q1, vec![vec![7usize], vec![2, 5], vec![1, 1, 5]]),
+    ] {
+        for comp in &comps {
+            let (bx, by) = split(x, y, comp);
+            for la in layout_assignments(comp.len()) {
+                for (model, sm, with_f32) in &nb_models {
+                    for fl in floats {
+                        if fl == "f32" && !*with_f32 {
+                            continue;
+                        }
+                        out.push(HCase { sub: "nb".into(), float: fl.into(), model: model.to_string(), batches: bx.clone(), labels: by.clone(), rows: vec![0; comp.len()], layouts: la.clone(), hyper: vec![*sm], init: vec![], queries: q.clone() });
+                    }
+                }
+            }
+        }
+    }
+    // large replicated batches: 1025 (quick) / 1025 and 4097 (thorough) rows, uniform layouts
+    let big_ns: Vec<usize> = if thorough { vec![1025, 4097] } else { vec![1025] };
+    for &n in &big_ns {
+        for rows in [vec![n], vec![1024, n - 1024], vec![1, n - 1]] {
+            let bx: Vec<Vec<Vec<f64>>> = rows.iter().map(|_| d1x.clone()).collect();
+            let by: Vec<Vec<usize>> = rows.iter().map(|_| d1y.clone()).collect();
+            for lay in 0..5usize {
+                for (model, sm) in [("gaussian", 0.0), ("gaussian", 1e-3), ("multinomial", 1.0)] {
+                    out.push(HCase { sub: "nb".into(), float: "f64".into(), model: model.into(), batches: bx.clone(), labels: by.clone(), rows: rows.clone(), layouts: vec![lay; rows.len()], hyper: vec![sm], init: vec![], queries: q2.clone() });
+                }
+            }
+        }
+    }
+    // ---------------- mini-batch k-means ----------------
+    let kpool: Vec<Vec<Vec<f64>>> = vec![
+        vec![vec![0.1, -0.2], vec![2.05, 0.1]],
+        vec![vec![4.2, 3.9], vec![4.1, 2.2], vec![2.3, 4.05]],
+        vec![vec![1.07, 0.93]],
+        vec![vec![2.1, 2.2], vec![2.15, 2.25], vec![6.3, 0.2], vec![0.05, 0.1]],
+    ];
+    let kinit: Vec<Vec<f64>> = vec![vec![0.3, 0.1], vec![4.0, 4.1], vec![6.2, 0.3]];
+    let kq: Vec<Vec<f64>> = vec![vec![0.0, 0.0], vec![4.0, 4.0], vec![6.0, 0.0], vec![2.0, 1.0], vec![5.0, 2.5], vec![-1.0, 3.0], vec![3.3, 3.1]];
+    let klen = if thorough { 3 } else { 2 };
+    for len in 1..=klen {
+        for seq in en::sequences(len, 4) {
+            for la in layout_assignments(len) {
+                for k in [2usize, 3] {
+                    for (metric, fl) in [("L2", "f64"), ("L1", "f64"), ("L2", "f32")] {
+                        out.push(HCase {
+                            sub: "kmeans".into(),
+                            float: fl.into(),
+                            model: metric.into(),
+                            batches: seq.iter().map(|&b| kpool[b].clone()).collect(),
+                            labels: vec![],
+                            rows: vec![0; len],
+                            layouts: la.clone(),
+                            hyper: vec![k as f64, 0.5],
+                            init: kinit[..k].to_vec(),
+                            queries: kq.clone(),
+                        });
+                    }
+                }
+            }
+        }
+    }
+    for &n in &big_ns {
+        for lay in 0..5usize {
+            for k in [1usize, 2] {
+                for order in [vec![3usize, 1], vec![1, 3]] {
+                    let rows: Vec<usize> = order.iter().map(|&b| if b == 3 { n } else { 0 }).collect();
+                    out.push(HCase {
+                        sub: "kmeans".into(),
+                        float: "f64".into(),
+                        model: "L2".into(),
+                        batches: order.iter().map(|&b| kpool[b].clone()).collect(),
+                        labels: vec![],
+                        rows,
+                        layouts: vec![lay; 2],
+                        hyper: vec![k as f64, 0.5],
+                        init: kinit[..k].to_vec(),
+                        queries: kq.clone(),
+                    });
+                }
+            }
+        }
+    }
+    // ---------------- FTRL ----------------
+    let fx: Vec<Vec<Vec<f64>>> = vec![
+        vec![vec![1.0, 0.0, 0.0], vec![0.0, 1.0, 0.0]],
+        vec![vec![1.0, 1.0, 1.0]],
+        vec![vec![2.0, 0.0, 1.0], vec![0.0, 0.0, 0.0], vec![1.0, 3.0, 0.0]],
+        vec![vec![0.0, 2.0, 0.0], vec![1.0, 1.0, 0.0]],
+        vec![vec![2.0, 0.0, 1.0], vec![1.0, 3.0, 0.0], vec![0.0, 1.0, 1.0], vec![1.0, 0.0, 2.0], vec![3.0, 1.0, 1.0]],
+    ];
+    let fy: Vec<Vec<usize>> = vec![vec![1, 0], vec![1], vec![0, 0, 1], vec![0, 1], vec![0, 1, 0, 1, 1]];
+    let fq: Vec<Vec<f64>> = vec![vec![0.0, 0.0, 0.0], vec![1.0, 0.0, 2.0], vec![0.5, 1.5, 0.0], vec![3.0, 3.0, 3.0], vec![0.0, 1.0, 0.0]];
+    let hypers: Vec<(Vec<f64>, bool)> = vec![(vec![0.5, 1.0, 0.5, 0.5], true), (vec![0.005, 0.0, 0.5, 0.5], false), (vec![1.0, 1.0, 0.0, 1.0], true)];
+    for len in 1..=klen {
+        for seq in en::sequences(len, 4) {
+            for la in layout_assignments(len) {
+                for (hy, with_f32) in &hypers {
+                    for fl in floats {
+                        if fl == "f32" && !*with_f32 {
+                            continue;
+                        }
+                        out.push(HCase {
+                            sub: "ftrl".into(),
+                            float: fl.into(),
+                            model: "ftrl".into(),
+                            batches: seq.iter().map(|&b| fx[b].clone()).collect(),
+                            labels: seq.iter().map(|&b| fy[b].clone()).collect(),
+                            rows: vec![0; len],
+                            layouts: la.clone(),
+                            hyper: hy.clone(),
+                            init: vec![],
+                            queries: fq.clone(),
+                        });
+                    }
+                }
+            }
+        }
+    }
+    for &n in &big_ns {
+        for lay in 0..5usize {
+            for (hy, _) in &hypers[..2] {
+                // batch 4 (every row non-zero, so that no row of a large batch is gradient-neutral)
+                // is the one that is blown up to n rows
+                for order in [vec![4usize, 0], vec![3, 4]] {
+                    let rows: Vec<usize> = order.iter().map(|&b| if b == 4 { n } else { 0 }).collect();
+                    out.push(HCase {
+                        sub: "ftrl".into(),
+                        float: "f64".into(),
+                        model: "ftrl".into(),
+                        batches: order.iter().map(|&b| fx[b].clone()).collect(),
+                        labels: order.iter().map(|&b| fy[b].clone()).collect(),
+                        rows,
+                        layouts: vec![lay; 2],
+                        hyper: hy.clone(),
+                        init: vec![],
+                        queries: fq.clone(),
+                    });
+                }
+            }
+        }
+    }
+    // ---------------- builder history ----------------
+    out.push(HCase { sub: "builder".into(), float: "f64".into(), model: "kmeans".into(), batches: vec![kpool[1].clone(), kpool[3].clone()], labels: vec![], rows: vec![], layouts: vec![], hyper: vec![], init: vec![], queries: vec![] });
+    out.push(HCase { sub: "builder".into(), float: "f64".into(), model: "ftrl".into(), batches: vec![fx[2].clone(), fx[3].clone()], labels: vec![fy[2].clone(), fy[3].clone()], rows: vec![], layouts: vec![], hyper: vec![], init: vec![], queries: vec![] });
+    let (bx, by) = split(&d1x, &d1y, &[3, 5]);
+    out.push(HCase { sub: "builder".into(), float: "f64".into(), model: "gaussian_nb".into(), batches: bx.clone(), labels: by.clone(), rows: vec![], layouts: vec![], hyper: vec![], init: vec![], queries: vec![] });
+    out.push(HCase { sub: "builder".into(), float: "f64".into(), model: "multinomial_nb".into(), batches: bx, labels: by, rows: vec![], layouts: vec![], hyper: vec![], init: vec![], queries: vec![] });
     out
 }
 
@@ -360,7 +544,7 @@ fn main() {
          (label-major, feature-major, riffle), x {gaussian var_smoothing 0, 1e-9, 1e-3; multinomial alpha 0, 0.5, 1}; per dataset EVERY composition of the rows into ordered non-empty batches \
          (prefix-sharing state graph: state = (rows consumed, sufficient statistics), transition = fit_with on the next s rows for every s; states with bit-identical statistics are merged). \
          k-means: distance function in {L2Dist, L1Dist, LInfDist} x 4 pools (2-d lattice, 2-d generic position, 1-d, 3-d) of 4 tiny batches, every batch sequence of length <= 3 / 4, k in {1,2,3}, precomputed initial centroids (incl. duplicated ones) / seeded k-means++ / seeded random, \
-         tolerances {1e-4, 0.5, 1, 2, 3, 100}; plus a large-batch family: batches of 1024 / 1025 / 2500 rows replicated from 4 distinct points (cyclic / block layout) combined with a 3-row batch in every sequence of length <= 2, k in {1,2}, precomputed / k-means++ / random init, L2 and L1. FTRL: pool of 4 batches (3 features), every sequence of length <= 3 / 4, alpha {0.005,0.5,1} x beta {0,1} x l1 {0,0.5,1} x l2 {0,0.5,1} x 3 initial z (two scripted, with |z| exactly on the l1 boundary, one as drawn by the crate's default generator). \
+         tolerances {1e-4, 0.5, 1, 2, 3, 100}; plus a large-batch family: batches of 1024 / 1025 / 2500 / 4097 rows replicated from 4 distinct points (cyclic / block layout) combined with a 3-row batch in every sequence of length <= 2, k in {1,2}, precomputed / k-means++ / random init, L2 and L1. FTRL: pool of 4 batches (3 features), every sequence of length <= 3 / 4, alpha {0.005,0.5,1} x beta {0,1} x l1 {0,0.5,1} x l2 {0,0.5,1} x 3 initial z (two scripted, with |z| exactly on the l1 boundary, one as drawn by the crate's default generator). \
          non-trivial = the transition updates a non-empty previous model (a genuinely incremental step) or is a step of a fresh full-history replay.",
     );
     ctx.assume("oracle NB: own textbook estimates from the consumed rows (class frequencies; per-class mean and population variance + var_smoothing x largest population variance of a feature over all consumed rows; summed counts and (count+alpha)/(total+alpha*p)); class_count exact, prior 1e-12, theta / feature_log_prob relative 1e-9 (+1e-12 absolute), multinomial feature_count bit-exact");
@@ -373,6 +557,8 @@ fn main() {
     ctx.assume("seeded k-means initialisation is not part of the property: the observed first model must follow by the recurrence from SOME choice of k rows of the first batch as initial centroids (k distinct rows for random, any k rows for k-means++); a random initialisation from a first batch with fewer than k rows is out of domain");
     ctx.assume("oracle FTRL: from the previous (z, n) of the subject: w = 0 if |z| <= l1 else (sign(z) l1 - z)/((sqrt(n)+beta)/alpha + l2); p_i = sigmoid(clamp(x_i.w, +-35)) rounded to f32; g = sum_i (p_i - y_i) x_i; sigma = (sqrt(n+g^2) - sqrt(n))/alpha; z' = z + g - sigma w; n' = n + g^2; tolerance 1e-6 x (1 + magnitude of the operands); get_weights() exactly 0 wherever |z| <= l1 (exact comparison on the subject's own z), else the closed form to 1e-12; states whose reference weights are not finite (beta = 0, l2 = 0, n = 0, |z| > l1) are out of domain");
     ctx.assume("the initial z of FTRL is drawn by the subject from a generator supplied by the check that replays chosen dyadic values (rand 0.8 uniform f64 = (u64 >> 12) / 2^52); Ftrl::new is checked to produce exactly these values");
+    ctx.assume("hardening families (harden.rs): each batch of a history is handed to fit_with in one of five memory layouts (standard, column-major owned, transposed view of a feature-major array, reversed-row view of a reversed copy, every-second-row view of a larger array with NaN filler rows), every assignment of layouts to the batches of histories of length <= 2 / 3 (<= 3 for naive Bayes); the model after every batch must equal the standard-layout replay within the tolerances above (counts exact), prediction inputs go through the same five layouts; replicated batches of 1025 (quick) / 1025 and 4097 (thorough) rows through the same reference oracles (1e-9 relative); f32 runs of naive Bayes, k-means and FTRL with f32 tolerances (statistics 1e-4 relative, centroids 1e-4, FTRL 1e-3 x operand magnitude, margins 1e-2) against the f64 reference evaluated on the f32-rounded inputs");
+    ctx.assume("builder history: every order of the setters of KMeansParams (n_runs, tolerance, max_n_iterations, init_method; 24 orders) and FtrlParams (alpha, beta, l1_ratio, l2_ratio, rng; 120 orders), each also after decoy writes of other values, plus the alternative constructors and decoy-then-real writes of the single naive-Bayes setter, must give the same published getters and a bit-identical two-batch model history as the canonical order");
     ctx.assume("VERIF_SEED does not influence what is explored");
 
     let nb_p1_max = ctx.pick(5, 6);
@@ -435,6 +621,29 @@ fn main() {
     });
     let f_done = agg.cases.swap(0, Ordering::Relaxed);
     ctx.extra("ftrl_cases_completed", json!(f_done));
+
+    // ---------------- hardening families: layouts, sizes, f32, builder history ----------------
+    let hc = harden_cases(ctx.thorough());
+    ctx.extra("harden_cases_enumerated", json!(hc.len()));
+    for (k, sub, fl) in [("harden_cases_nb_f64", "nb", "f64"), ("harden_cases_nb_f32", "nb", "f32"), ("harden_cases_kmeans_f64", "kmeans", "f64"), ("harden_cases_kmeans_f32", "kmeans", "f32"), ("harden_cases_ftrl_f64", "ftrl", "f64"), ("harden_cases_ftrl_f32", "ftrl", "f32"), ("harden_cases_builder", "builder", "f64")] {
+        ctx.extra(k, json!(hc.iter().filter(|c| c.sub == sub && c.float == fl).count()));
+    }
+    ctx.extra("harden_cases_with_a_non_standard_layout", json!(hc.iter().filter(|c| c.layouts.iter().any(|l| *l != 0)).count()));
+    ctx.extra("harden_cases_with_a_batch_of_more_than_1024_rows", json!(hc.iter().filter(|c| c.rows.iter().any(|r| *r > 1024)).count()));
+    let hchunks: Vec<&[HCase]> = hc.chunks(16).collect();
+    par_sweep(&ctx, "hardening", &hchunks, |chunk| {
+        let mut out = Out::default();
+        for c in chunk.iter() {
+            harden::run_h(c, &mut out);
+            ctx.sample(|| json!({"family": "harden", "sub": c.sub, "float": c.float, "model": c.model, "rows": c.rows, "layouts": c.layouts, "hyper": c.hyper}));
+        }
+        flush(&ctx, &agg, out, chunk.len() as u64);
+    });
+    let h_done = agg.cases.swap(0, Ordering::Relaxed);
+    ctx.extra("harden_cases_completed", json!(h_done));
+    if h_done != hc.len() as u64 {
+        ctx.capped("not every hardening case was completed");
+    }
 
     if nb_done != nb_expected || km_done != kc.len() as u64 || f_done != fc.len() as u64 {
         ctx.capped("not every enumerated case was completed (see *_cases_enumerated vs *_cases_completed)");
